@@ -564,7 +564,17 @@ func (w *Lit) End() Pos {
 }
 func (w *Quote) End() Pos {
 	end := w.Value.End()
-	if end.IsZero() || w.Tok == `\` {
+	switch {
+	case end.IsZero():
+		if w.TokPos.IsZero() {
+			return end
+		}
+		// nothing between the quoting characters
+		if w.Tok == `\` {
+			return w.TokPos.shift(1)
+		}
+		return w.TokPos.shift(2)
+	case w.Tok == `\`:
 		return end
 	}
 	return end.shift(1)
